@@ -7,7 +7,7 @@ notes=json.load(open('/verif/manifest_notes.json'))
 out={"version":1,
  "setup_cmd":"make -C /verif build",
  "hooks":{"guard":"verif","enable":"none needed: harnesses use the public API from /verif/harness (go.mod replace => /repo); no hook commits in /repo",
-          "baseline_off_cmd":"cd /repo && go test -mod=mod -vet=off -count=1 ./...","source_commits":[],"add_only":True},
+          "baseline_off_cmd":"cd /repo && go test -mod=mod -json -vet=off -count=1 -timeout 25m ./...","source_commits":[],"add_only":True},
  "engines":[{"name":"gosym","path":"/verif/engine","serves_properties":sorted(checks.keys()),
    "kind_free_text":"bounded symbolic execution of Go SSA (golang.org/x/tools/go/ssa v0.29.0, rebuilt from /repo's working tree on every run) with Z3 4.8.12 in-process (cgo/libz3) and SMT-LIB2 escalation to cvc5 --solve-bv-as-int=sum / z3 5.1; solver models are replayed natively against the real build before a VIOLATION is printed"}],
  "checks":[],"not_applicable":[],
